@@ -507,8 +507,10 @@ type engPlan struct {
 	Seed  uint64 `json:"seed"`
 	Crash int    `json:"crash"` // crash before scheduling step k (-1 = never)
 	Fail  int    `json:"fail"`  // the k-th gate release fails (-1 = never)
-	Plan  []int  `json:"plan"`  // explicit choices (then seeded random)
+	Plan   []int `json:"plan"`   // explicit choices (then seeded random, or always the first when First is set)
 	Coarse bool  `json:"coarse"` // only switch at visible steps
+	First  bool  `json:"first"`  // beyond the explicit prefix take the first enabled actor (used by the exhaustive search)
+	DFS    int   `json:"dfs"`    // > 0: enumerate every schedule (depth-first over the choices), at most this many
 }
 
 var engVisible = map[string]bool{"start": true, "ik-lookup": true, "ref-lookup": true, "lock": true, "read-balances": true, "alloc-txid": true,
@@ -586,6 +588,8 @@ func runEngineSchedule(reqs []engReq, funding [][]string, ameta [][]string, plan
 	finished := map[int]bool{}
 	step := 0
 	crashed := []int{}
+	lastActor := -2
+	choices, counts := []int{}, []int{}
 
 	start := func(i int) {
 		rq := reqs[i]
@@ -746,13 +750,28 @@ func runEngineSchedule(reqs []engReq, funding [][]string, ameta [][]string, plan
 				break
 			}
 			// choice
-			ch := 0
-			if step < len(plan.Plan) {
-				ch = plan.Plan[step] % len(enabled)
-			} else {
-				ch = r.n(len(enabled))
+			ch := -1
+			if plan.Coarse && lastActor != actorP { // keep running the same request through its invisible steps
+				for k, x := range enabled {
+					if x == lastActor && !engVisible[s.parked[x]] {
+						ch = k
+					}
+				}
+			}
+			if ch < 0 {
+				switch {
+				case len(choices) < len(plan.Plan):
+					ch = plan.Plan[len(choices)] % len(enabled)
+				case plan.First:
+					ch = 0
+				default:
+					ch = r.n(len(enabled))
+				}
+				choices = append(choices, ch)
+				counts = append(counts, len(enabled))
 			}
 			a := enabled[ch]
+			lastActor = a
 			pt := s.parked[a]
 			s.mu.Lock()
 			delete(s.parked, a)
@@ -853,7 +872,7 @@ func runEngineSchedule(reqs []engReq, funding [][]string, ameta [][]string, plan
 	respMu.Unlock()
 	sort.Ints(crashed)
 	return J{"trace": s.trace, "durable": durable, "responses": rs, "events": append([]J{}, s.events...), "crashed": append([]int{}, crashed...), "watchdog": watchdog, "steps": step,
-		"n_funding": nFunding}
+		"n_funding": nFunding, "choices": choices, "counts": counts}
 }
 
 func execEngine(in J) J {
@@ -863,15 +882,52 @@ func execEngine(in J) J {
 		Funding  [][]string `json:"funding"`
 		Metadata [][]string `json:"metadata"`
 		Plans    []engPlan  `json:"plans"`
+		Twin     bool       `json:"twin"`
 	}
 	if err := json.Unmarshal(b, &sc); err != nil {
 		return J{"error": err.Error()}
 	}
-	runs := []any{}
-	for _, p := range sc.Plans {
-		runs = append(runs, runEngineSchedule(sc.Requests, sc.Funding, sc.Metadata, p))
+	var real []engReq
+	for _, q := range sc.Requests {
+		if !q.Dry {
+			real = append(real, q)
+		}
 	}
-	return J{"runs": runs}
+	runs := []any{}
+	plansOut := []any{}
+	one := func(p engPlan) J {
+		run := runEngineSchedule(sc.Requests, sc.Funding, sc.Metadata, p)
+		if sc.Twin { // the same history without its previews (C14)
+			run["twin"] = runEngineSchedule(real, sc.Funding, sc.Metadata, p)
+		}
+		return run
+	}
+	for _, p := range sc.Plans {
+		if p.DFS <= 0 {
+			runs = append(runs, one(p))
+			plansOut = append(plansOut, p)
+			continue
+		}
+		// exhaustive: depth-first over the scheduling choices
+		prefix := []int{}
+		for n := 0; n < p.DFS; n++ {
+			q := p
+			q.Plan, q.First, q.DFS = prefix, true, 0
+			run := one(q)
+			runs = append(runs, run)
+			plansOut = append(plansOut, q)
+			ch, cn := run["choices"].([]int), run["counts"].([]int)
+			i := len(ch) - 1
+			for i >= 0 && ch[i]+1 >= cn[i] {
+				i--
+			}
+			if i < 0 {
+				break
+			}
+			prefix = append(append([]int{}, ch[:i]...), ch[i]+1)
+		}
+	}
+	return J{"runs": runs, "plans": plansOut}
 }
 
 // ------------------------------------------------------------------ scenario generator
@@ -880,7 +936,23 @@ func genEngine(r *rng, n int, tier string, emit func(J)) {
 	accts := []string{"alice", "bob", "carol"}
 	nPlans := 6
 	if tier == "thorough" {
-		nPlans = 40
+		nPlans = 30
+	}
+	mkPlans := func(g *rng, nReq int, crashes bool) []J {
+		var plans []J
+		for p := 0; p < nPlans; p++ {
+			pl := J{"seed": g.next() % 1000000, "crash": -1, "fail": -1, "plan": []int{}, "coarse": g.p(30)}
+			if crashes && p >= nPlans/2 && g.p(50) {
+				pl["crash"] = g.n(12 * nReq)
+			} else if crashes && p >= nPlans/2 && g.p(30) {
+				pl["fail"] = g.n(2)
+			}
+			plans = append(plans, pl)
+		}
+		return plans
+	}
+	create := func(g *rng, phase int, src, dst string, amt int) J {
+		return J{"kind": "create", "phase": phase, "dry": false, "ik": "", "ref": "", "src": src, "via": g.pick([]string{"lit", "var", "meta"}), "dst": dst, "amount": amt}
 	}
 	for c := 0; c < n; c++ {
 		g := r.fork()
@@ -893,70 +965,137 @@ func genEngine(r *rng, n int, tier string, emit func(J)) {
 			meta = append(meta, []string{"registry", a, a})
 		}
 		var reqs []J
-		nReq := 2 + g.n(3)
-		if tier == "thorough" {
-			nReq = 2 + g.n(5)
-		}
-		phase := 0
-		sharedIK := fmt.Sprintf("ik%d", g.n(2))
-		sharedRef := fmt.Sprintf("ref%d", g.n(2))
-		hot := g.pick(accts)
-		for i := 0; i < nReq; i++ {
-			if i > 0 && g.p(35) {
-				phase++
+		twin := false
+		dfs := 0
+		switch c % 8 {
+		case 0: // racing debits of one account, named in different ways
+			funding[0][2] = "100"
+			k := 2 + g.n(2)
+			for i := 0; i < k; i++ {
+				q := create(g, 0, "alice", g.pick([]string{"bob", "carol", "dave"}), []int{60, 80, 100}[g.n(3)])
+				if g.p(20) {
+					q["over"] = 20
+				}
+				reqs = append(reqs, q)
 			}
-			q := J{"phase": phase, "dry": g.p(15), "ik": "", "ref": "", "kind": "create"}
-			if g.p(35) {
-				q["ik"] = sharedIK
+			if c%16 == 0 {
+				dfs = 400 // every interleaving of the visible steps
 			}
-			switch x := g.n(100); {
-			case x < 62:
-				q["kind"] = "create"
-				src := hot
-				if g.p(30) {
-					src = g.pick(accts)
-				}
-				q["src"], q["via"], q["dst"] = src, g.pick([]string{"lit", "lit", "var", "meta"}), g.pick([]string{"bob", "carol", "dave", "alice"})
-				q["amount"] = []int{30, 60, 80, 100, 120}[g.n(5)]
-				if g.p(15) {
-					q["over"] = 20 * g.n(3)
-				}
-				if g.p(35) {
-					q["ref"] = sharedRef
-				}
-			case x < 80:
-				q["kind"] = "revert"
-				q["target"] = g.n(3 + i) // a funding transaction or an earlier one
-				q["force"] = g.p(30)
-			case x < 92:
-				q["kind"] = "setmeta"
-				if g.p(50) {
-					q["acct"] = g.pick(accts)
-				} else {
-					q["target"] = g.n(3 + i)
-				}
-				q["key"], q["val"] = g.pick([]string{"k1", "k2"}), fmt.Sprintf("v%d", i)
-			default:
-				q["kind"] = "delmeta"
-				if g.p(50) {
-					q["acct"] = g.pick(accts)
-				} else {
-					q["target"] = g.n(3 + i)
-				}
-				q["key"] = g.pick([]string{"k1", "k2"})
+		case 1: // one reference, several writers, one more later
+			k := 2 + g.n(2)
+			for i := 0; i < k; i++ {
+				q := create(g, 0, g.pick(accts), "dave", 10+10*g.n(3))
+				q["ref"] = "ref-x"
+				reqs = append(reqs, q)
 			}
+			q := create(g, 1, g.pick(accts), "dave", 10)
+			q["ref"] = "ref-x"
 			reqs = append(reqs, q)
-		}
-		var plans []J
-		for p := 0; p < nPlans; p++ {
-			pl := J{"seed": g.next() % 1000000, "crash": -1, "fail": -1, "plan": []int{}}
-			if p >= nPlans/2 && g.p(50) {
-				pl["crash"] = g.n(12 * nReq)
-			} else if p >= nPlans/2 && g.p(30) {
-				pl["fail"] = g.n(2)
+		case 2: // racing reverts of one transaction (a funding one or one created first)
+			reqs = append(reqs, create(g, 0, "alice", "bob", 30))
+			t := g.n(4)
+			k := 2 + g.n(2)
+			for i := 0; i < k; i++ {
+				reqs = append(reqs, J{"kind": "revert", "phase": 1, "dry": false, "ik": "", "ref": "", "target": t, "force": g.p(30)})
 			}
-			plans = append(plans, pl)
+			reqs = append(reqs, J{"kind": "revert", "phase": 2, "dry": false, "ik": "", "ref": "", "target": t, "force": true})
+		case 3: // duplicates of one idempotency key, same kind of write
+			kind := g.pick([]string{"create", "setmeta", "delmeta", "revert"})
+			k := 2 + g.n(3)
+			for i := 0; i < k; i++ {
+				ph := 0
+				if g.p(40) {
+					ph = 1
+				}
+				var q J
+				switch kind {
+				case "create":
+					q = create(g, ph, "alice", "bob", 20)
+				case "revert":
+					q = J{"kind": "revert", "target": 1, "force": false}
+				case "setmeta":
+					q = J{"kind": "setmeta", "acct": "alice", "key": "k1", "val": fmt.Sprintf("v%d", i)}
+				default:
+					q = J{"kind": "delmeta", "acct": "alice", "key": "k1"}
+				}
+				q["phase"], q["dry"], q["ik"], q["ref"] = ph, false, "same-key", ""
+				reqs = append(reqs, q)
+			}
+		case 4: // a sequential history with previews in it (compared with the same history without them)
+			twin = true
+			k := 3 + g.n(3)
+			for i := 0; i < k; i++ {
+				var q J
+				switch g.n(4) {
+				case 0:
+					q = J{"kind": "revert", "target": g.n(3 + i), "force": g.p(50), "ik": "", "ref": ""}
+				case 1:
+					q = J{"kind": "setmeta", "acct": g.pick(accts), "key": "k1", "val": fmt.Sprintf("v%d", i), "ik": "", "ref": ""}
+				default:
+					q = create(g, i, g.pick(accts), g.pick([]string{"bob", "dave"}), 10+10*g.n(4))
+				}
+				q["phase"], q["dry"] = i, g.p(45)
+				reqs = append(reqs, q)
+			}
+		default: // a random mix
+			nReq := 2 + g.n(3)
+			if tier == "thorough" {
+				nReq = 2 + g.n(5)
+			}
+			phase := 0
+			sharedIK := fmt.Sprintf("ik%d", g.n(2))
+			sharedRef := fmt.Sprintf("ref%d", g.n(2))
+			hot := g.pick(accts)
+			for i := 0; i < nReq; i++ {
+				if i > 0 && g.p(35) {
+					phase++
+				}
+				q := J{"phase": phase, "dry": g.p(15), "ik": "", "ref": "", "kind": "create"}
+				if g.p(35) {
+					q["ik"] = sharedIK
+				}
+				switch x := g.n(100); {
+				case x < 62:
+					src := hot
+					if g.p(30) {
+						src = g.pick(accts)
+					}
+					q["src"], q["via"], q["dst"] = src, g.pick([]string{"lit", "lit", "var", "meta"}), g.pick([]string{"bob", "carol", "dave", "alice"})
+					q["amount"] = []int{30, 60, 80, 100, 120}[g.n(5)]
+					if g.p(15) {
+						q["over"] = 20 * g.n(3)
+					}
+					if g.p(35) {
+						q["ref"] = sharedRef
+					}
+				case x < 80:
+					q["kind"] = "revert"
+					q["target"] = g.n(3 + i)
+					q["force"] = g.p(30)
+				case x < 92:
+					q["kind"] = "setmeta"
+					if g.p(50) {
+						q["acct"] = g.pick(accts)
+					} else {
+						q["target"] = g.n(3 + i)
+					}
+					q["key"], q["val"] = g.pick([]string{"k1", "k2"}), fmt.Sprintf("v%d", i)
+				default:
+					q["kind"] = "delmeta"
+					if g.p(50) {
+						q["acct"] = g.pick(accts)
+					} else {
+						q["target"] = g.n(3 + i)
+					}
+					q["key"] = g.pick([]string{"k1", "k2"})
+				}
+				reqs = append(reqs, q)
+			}
 		}
-		emit(J{"requests": reqs, "funding": funding, "metadata": meta, "plans": plans})
+		plans := mkPlans(g, len(reqs), !twin)
+		if dfs > 0 {
+			plans = append(plans, J{"seed": 0, "crash": -1, "fail": -1, "plan": []int{}, "coarse": true, "dfs": dfs})
+		}
+		emit(J{"requests": reqs, "funding": funding, "metadata": meta, "plans": plans, "twin": twin})
 	}
 }
